@@ -188,6 +188,43 @@ theorem idle_deadline_stable (A : FArith T) (c : Bool) (ops : List (Op T))
     (step A (run A (Conn.init c) ops) op).state.isEnd = true :=
   step_passive A (inv_run A ops (inv_init c) hu) hl d hd op husage hop
 
+/-- "... or an idle period of the negotiated length, it reports termination
+    ... at the idle deadline" over whole sequences: from a reachable live state
+    with idle deadline `d`, over ANY continuation in which nothing is accepted
+    from the peer (`AllPassive`: no connect(), every received packet inert —
+    arbitrary get_timer / handle_timer / datagrams_to_send / close / next_event
+    calls, i.e. however often the ack / loss / pacing timers fire), once a
+    `handle_timer(now)` with `now >= d` has run the connection is TERMINATED or
+    in its closing period (which `closing_terminates` bounds by 3 PTO); repeated
+    timer firings cannot postpone this. -/
+theorem idle_run_terminates (A : FArith T) (c : Bool) (ops more : List (Op T))
+    (hu : Usage A (Conn.init c) (ops ++ more))
+    (hl : (run A (Conn.init c) ops).state.isEnd = false) (d : T)
+    (hd : (run A (Conn.init c) ops).closeAt = some d) (hp : AllPassive more)
+    (now : T) (hin : Op.fire now ∈ more) (hdue : A.le d now = true) :
+    (run A (run A (Conn.init c) ops) more).state.isEnd = true := by
+  have hu' := (usage_append A ops more _).mp hu
+  exact passive_run_due A more (inv_run A ops (inv_init c) hu'.1) hl d hd hu'.2 hp now hin hdue
+
+/-- "... always names a finite next timer deadline" during an idle period: over
+    any passive continuation the connection either has started closing /
+    terminated, or its deadline is still exactly `d` and `get_timer()` returns a
+    value not later than `d` — so a caller that sleeps until `get_timer()` always
+    fires at or before the idle deadline. -/
+theorem idle_timer_bounded (A : FArith T) (L : OrdLaws A) (c : Bool) (ops more : List (Op T))
+    (hu : Usage A (Conn.init c) (ops ++ more))
+    (hl : (run A (Conn.init c) ops).state.isEnd = false) (d : T)
+    (hd : (run A (Conn.init c) ops).closeAt = some d) (hp : AllPassive more)
+    (acks : List (Option T)) (loss pacing : Option T) :
+    (run A (run A (Conn.init c) ops) more).state.isEnd = true ∨
+    ((run A (run A (Conn.init c) ops) more).closeAt = some d ∧
+      ∃ t, (getTimer A (run A (run A (Conn.init c) ops) more) acks loss pacing).2 = some t ∧
+        A.le t d = true) := by
+  have hu' := (usage_append A ops more _).mp hu
+  rcases passive_run A more (inv_run A ops (inv_init c) hu'.1) hl d hd hu'.2 hp with h1 | ⟨_, h2⟩
+  · exact Or.inl h1
+  · exact Or.inr ⟨h2, getTimer_spec A L _ d h2 acks loss pacing⟩
+
 /-! ### the hypotheses are satisfiable, the conclusions are not vacuous -/
 
 /-- integer time: an arithmetic satisfying `OrdLaws` -/
@@ -231,6 +268,9 @@ example : (run natArith (Conn.init false) (demoIdle.take 2)).closeAt = some 35 :
 example : (getTimer natArith (run natArith (Conn.init false) (demoIdle.take 1)) [none] (some 6) none).2 = some 6 := by
   decide
 example : (run natArith (Conn.init false) demoIdle).log = [.other, .terminated (some idleEv)] := by decide
+example : AllPassive (demoIdle.drop 1) := ⟨trivial, trivial, trivial⟩
+example : Usage natArith (Conn.init false) (demoIdle.take 1 ++ demoIdle.drop 1) :=
+  ⟨(fun h => nomatch h), trivial, trivial, trivial⟩
 
 end AQ.Props.C09
 
@@ -245,3 +285,5 @@ end AQ.Props.C09
 #print axioms AQ.Props.C09.closing_terminates
 #print axioms AQ.Props.C09.idle_terminates
 #print axioms AQ.Props.C09.idle_deadline_stable
+#print axioms AQ.Props.C09.idle_run_terminates
+#print axioms AQ.Props.C09.idle_timer_bounded
